@@ -49,6 +49,7 @@ def run(P, rep, tier):
     rep.attempt(r7_make_mandatory, P, rep, ctx)
     rep.attempt(r8_atomic_types_source, P, rep, ctx)
     rep.attempt(r9_config_whitelist, P, rep, ctx)
+    rep.attempt(r10_type_hint_source, P, rep, ctx)
     # constants declared by a parent stay forced in every descendant (constant rules of C12.R4)
     from . import c12 as _c12
 
@@ -498,6 +499,33 @@ def r5_const_specialisation(P, rep, ctx):
     need_ovr = f.refuses_when([[FD, f"{FD} is not None", f"{nm} in {mc}.__fields__"], [f"not {fi.params[1]}"], [f"not is_enum({FD}.type_)"], [f"not is_literal({FD}.type_)"]], src_edge=(L, "iter"), targets=[L, g.exit])
     rep.check(bool(need_ovr) and bool(val_raises), "C13.R5", af.qual,
               "overriding an ordinary inherited field with a constant needs override=True", af.loc(), construct="override required", message="add_const_fields silently replaces an ordinary inherited field")
+
+
+def r10_type_hint_source(P, rep, ctx):
+    """The override check compares the *declared* type hints of parent and child (typing.get_type_hints with extras): the hint
+    of a class is computed from that class object, by the typing machinery, every time it is asked for by a new class object.
+    (a) util.typing.get_type_hints hands out nothing but the result of typing / typing_extensions get_type_hints -- pydantic's
+    `outer_type_` / `type_` drop Optional and are no substitute; (b) schema/core.py keeps no module-level table of hints (or of
+    anything else mutable): a table keyed by a class's *name* serves a re-defined or same-named class the other class's hints."""
+    fi = P.func("util.typing.get_type_hints")
+    f = F(ctx, fi)
+    rets = [f.x_at(i, v) for i, v in f.returns() if v is not None]
+    ok = bool(rets) and all(r.startswith(("te.get_type_hints(", "typing.get_type_hints(", "typing_extensions.get_type_hints(", "get_type_hints(")) for r in rets)
+    rep.check(ok, "C13.R10", fi.qual, "type hints come from typing.get_type_hints only", fi.loc(), construct=f"get_type_hints returns {[r[:40] for r in rets]}",
+              message=f"util.typing.get_type_hints can return {[r[:60] for r in rets if not r.startswith(('te.get_type_hints(', 'typing.get_type_hints('))]}: hints that are not the declared ones (pydantic's field types drop Optional / constraints) make the parent-child comparison accept a child that widens a field")
+    m = P.module("schema.core")
+    for st in m.tree.body:
+        tg = st.targets[0] if isinstance(st, ast.Assign) and len(st.targets) == 1 else st.target if isinstance(st, ast.AnnAssign) else None
+        val = getattr(st, "value", None)
+        if not isinstance(tg, ast.Name) or val is None:
+            continue
+        mutable = isinstance(val, (ast.Dict, ast.List, ast.DictComp, ast.ListComp)) or (isinstance(val, ast.Call) and norm(val.func).split(".")[-1] in ("dict", "list", "defaultdict", "OrderedDict", "WeakValueDictionary", "WeakKeyDictionary"))
+        if not mutable:
+            continue
+        users = sorted({fi_.name for fi_ in P.functions.values() if fi_.module.name == "schema.core" and any(isinstance(x, ast.Name) and x.id == tg.id for x in ast.walk(fi_.node))})
+        rep.check(False, "C13.R10", "schema.core", f"no module-level mutable table ({tg.id})", f"{m.relpath}:{st.lineno}", construct=f"module-level {tg.id}",
+                  message=f"schema/core.py keeps a module-level mutable table `{tg.id}` (used by {users}): what a schema class is checked against now depends on what was asked before (e.g. hints cached under a class *name* are served to another class of that name)")
+    rep.ok("C13.R10", "schema.core", "module state of schema/core.py checked", m.relpath)
 
 
 def r9_config_whitelist(P, rep, ctx):
